@@ -9,97 +9,90 @@ theorem bind_ok {α β} {m : Res α} {k : α → Res β} {r : β} :
     m.bind k = .ok r ↔ ∃ a, m = .ok a ∧ k a = .ok r := by
   cases m <;> simp [Res.bind]
 
-theorem bind_mono {α β} {m m' : Res α} {k k' : α → Res β} {r : β}
-    (hm : ∀ a, m = .ok a → m' = .ok a) (hk : ∀ a r, k a = .ok r → k' a = .ok r)
-    (h : m.bind k = .ok r) : m'.bind k' = .ok r := by
+/-- `r'` is at least as defined as `r` -/
+def RLe {α} (r r' : Res α) : Prop := ∀ x, r = .ok x → r' = .ok x
+
+theorem RLe.refl {α} (r : Res α) : RLe r r := fun _ h => h
+
+theorem RLe.bind {α β} {m m' : Res α} {k k' : α → Res β} (hm : RLe m m') (hk : ∀ a, RLe (k a) (k' a)) :
+    RLe (m.bind k) (m'.bind k') := by
+  intro r h
   obtain ⟨a, h1, h2⟩ := bind_ok.mp h
   rw [hm a h1]; exact hk a r h2
 
+theorem RLe.ite {α} {c : Prop} [Decidable c] {a a' b b' : Res α} (ha : c → RLe a a') (hb : ¬ c → RLe b b') :
+    RLe (if c then a else b) (if c then a' else b') := by
+  split
+  · exact ha ‹_›
+  · exact hb ‹_›
+
+-- closes / decomposes a goal `RLe (body at fuel n) (body at fuel n+1)` given the induction hypotheses `ihP … ihS` in context
+set_option hygiene false in
+macro "mono_auto" : tactic => `(tactic|
+  repeat (first
+    | exact RLe.refl _
+    | exact ihP _ _
+    | exact ihL _ _ _
+    | exact ihA _
+    | exact ihT _ _
+    | exact ihI _
+    | exact ihB _ _
+    | exact ihS _
+    | apply RLe.ite
+    | apply RLe.bind
+    | (intro a; first | (obtain ⟨_, _⟩ := a; dsimp only) | skip)))
+
 theorem mono : ∀ f,
-    (∀ c ts r, parseExpr f c ts = .ok r → parseExpr (f+1) c ts = .ok r) ∧
-    (∀ c l ts r, loop f c l ts = .ok r → loop (f+1) c l ts = .ok r) ∧
-    (∀ ts r, parseArgs f ts = .ok r → parseArgs (f+1) ts = .ok r) ∧
-    (∀ acc ts r, parseArgsTail f acc ts = .ok r → parseArgsTail (f+1) acc ts = .ok r) := by
+    (∀ c ts, RLe (parseExpr f c ts) (parseExpr (f+1) c ts)) ∧
+    (∀ c l ts, RLe (loop f c l ts) (loop (f+1) c l ts)) ∧
+    (∀ ts, RLe (parseArgs f ts) (parseArgs (f+1) ts)) ∧
+    (∀ acc ts, RLe (parseArgsTail f acc ts) (parseArgsTail (f+1) acc ts)) ∧
+    (∀ ts, RLe (parseIf f ts) (parseIf (f+1) ts)) ∧
+    (∀ acc ts, RLe (parseBlock f acc ts) (parseBlock (f+1) acc ts)) ∧
+    (∀ ts, RLe (parseStmt f ts) (parseStmt (f+1) ts)) := by
   intro f
   induction f with
-  | zero => simp [parseExpr, loop, parseArgs, parseArgsTail]
+  | zero =>
+    refine ⟨?_, ?_, ?_, ?_, ?_, ?_, ?_⟩ <;> intros <;> intro x h <;> simp [parseExpr, loop, parseArgs, parseArgsTail, parseIf, parseBlock, parseStmt] at h
   | succ n ih =>
-    obtain ⟨ihP, ihL, ihA, ihT⟩ := ih
-    refine ⟨?_, ?_, ?_, ?_⟩
-    · intro c ts r h
+    obtain ⟨ihP, ihL, ihA, ihT, ihI, ihB, ihS⟩ := ih
+    refine ⟨?_, ?_, ?_, ?_, ?_, ?_, ?_⟩
+    · intro c ts
       cases ts with
-      | nil => simp [parseExpr] at h
+      | nil => exact RLe.refl _
       | cons t rest =>
-        rw [parseExpr.eq_3] at h ⊢
-        split at h
-        · simp at h
-        · rename_i hc
-          rw [if_neg hc]
-          split at h
-          · simp at h
-          · simp at h
-          · exact bind_mono (fun _ h => h) (fun a r h => ihL _ _ _ _ h) h
-          · refine bind_mono (fun _ h => h) (fun a r h => ?_) h
-            split at h
-            · simp at h
-            · rename_i hq; rw [if_neg hq]; exact ihL _ _ _ _ h
-          · refine bind_mono (fun _ h => h) (fun a r h => ?_) h
-            split at h
-            · simp at h
-            · rename_i hq; rw [if_neg hq]; exact ihL _ _ _ _ h
-          · exact bind_mono (ihP _ _) (fun a r h => ihL _ _ _ _ h) h
-          · refine bind_mono (ihP _ _) (fun a r h => ?_) h
-            obtain ⟨e, rest'⟩ := a
-            simp only at h ⊢
-            split at h
-            · rename_i h1; rw [if_pos h1]
-              split at h
-              · simp at h
-              · rename_i h2; rw [if_neg h2]; exact ihL _ _ _ _ h
-            · simp at h
-    · intro c l ts r h
+        rw [parseExpr.eq_3 c n, parseExpr.eq_3 c (n+1)]
+        apply RLe.ite
+        · intro _; exact RLe.refl _
+        · intro _
+          cases prefixKind t.ttype <;> dsimp only <;> mono_auto
+    · intro c l ts
       cases ts with
-      | nil => simpa [loop] using h
+      | nil => exact RLe.refl _
       | cons t rest =>
-        rw [loop.eq_3] at h ⊢
-        split at h
-        · rename_i hc
-          rw [if_pos hc]
-          split at h
-          · simp at h
-          · simp at h
-          · exact bind_mono (ihP _ _) (fun a r h => ihL _ _ _ _ h) h
-          · exact bind_mono (ihP _ _) (fun a r h => ihL _ _ _ _ h) h
-          · refine bind_mono (ihP _ _) (fun a r h => ?_) h
-            obtain ⟨e, rest'⟩ := a
-            simp only at h ⊢
-            split at h
-            · rename_i h1; rw [if_pos h1]; exact ihL _ _ _ _ h
-            · simp at h
-          · refine bind_mono (ihP _ _) (fun a r h => ?_) h
-            obtain ⟨e, rest'⟩ := a
-            simp only at h ⊢
-            split at h
-            · rename_i h1; rw [if_pos h1]; exact ihL _ _ _ _ h
-            · simp at h
-          · exact bind_mono (ihA _) (fun a r h => ihL _ _ _ _ h) h
-        · rename_i hc
-          rw [if_neg hc]; exact h
-    · intro ts r h
-      rw [parseArgs.eq_2] at h ⊢
-      split at h
-      · rename_i h1; rw [if_pos h1]; exact h
-      · rename_i h1; rw [if_neg h1]
-        exact bind_mono (ihP _ _) (fun a r h => ihT _ _ _ h) h
-    · intro acc ts r h
-      rw [parseArgsTail.eq_2] at h ⊢
-      split at h
-      · rename_i h1; rw [if_pos h1]
-        exact bind_mono (ihP _ _) (fun a r h => ihT _ _ _ h) h
-      · rename_i h1; rw [if_neg h1]
-        split at h
-        · rename_i h2; rw [if_pos h2]; exact h
-        · simp at h
+        rw [loop.eq_3 c l n, loop.eq_3 c l (n+1)]
+        apply RLe.ite
+        · intro _
+          cases infixKind t.ttype <;> dsimp only <;> mono_auto
+        · intro _; exact RLe.refl _
+    · intro ts
+      rw [parseArgs.eq_2 ts n, parseArgs.eq_2 ts (n+1)]
+      mono_auto
+    · intro acc ts
+      rw [parseArgsTail.eq_2 acc ts n, parseArgsTail.eq_2 acc ts (n+1)]
+      mono_auto
+    · intro ts
+      rw [parseIf.eq_2 ts n, parseIf.eq_2 ts (n+1)]
+      mono_auto
+    · intro acc ts
+      rw [parseBlock.eq_2 acc ts n, parseBlock.eq_2 acc ts (n+1)]
+      mono_auto
+    · intro ts
+      cases ts with
+      | nil => exact RLe.refl _
+      | cons t rest =>
+        rw [parseStmt.eq_3 n t rest, parseStmt.eq_3 (n+1) t rest]
+        mono_auto
 
 theorem monoP {f f' c ts r} (hf : f ≤ f') (h : parseExpr f c ts = .ok r) : parseExpr f' c ts = .ok r := by
   induction hf with
@@ -114,7 +107,7 @@ theorem monoL {f f' c l ts r} (hf : f ≤ f') (h : loop f c l ts = .ok r) : loop
 theorem monoT {f f' acc ts r} (hf : f ≤ f') (h : parseArgsTail f acc ts = .ok r) : parseArgsTail f' acc ts = .ok r := by
   induction hf with
   | refl => exact h
-  | step _ ih => exact (mono _).2.2.2 _ _ _ ih
+  | step _ ih => exact (mono _).2.2.2.1 _ _ _ ih
 
 /-! ## the sub-grammar, minimal parentheses, well-formedness
 
@@ -192,6 +185,8 @@ def wrapIf (b : Bool) (ts : List Tok) : List Tok :=
 mutual
 /-- tokens of `x` with a child in parentheses exactly when the table requires it -/
 def renderT : PExpr → List Tok
+  | .ifE _ _ _ => []
+  | .fnE _ _ => []
   | .int n => [.int n]
   | .bool b => [.bool b]
   | .ident s => [.ident s]
@@ -224,6 +219,8 @@ def okBAT (ca : Bool) : PExpr → Bool
 
 mutual
 def wfT : PExpr → Bool
+  | .ifE _ _ _ => false
+  | .fnE _ _ => false
   | .int _ => true
   | .bool _ => true
   | .ident _ => true
@@ -240,6 +237,8 @@ end
 
 mutual
 def renderFullT : PExpr → List Tok
+  | .ifE _ _ _ => []
+  | .fnE _ _ => []
   | .int n => [.int n]
   | .bool b => [.bool b]
   | .ident s => [.ident s]
@@ -505,6 +504,8 @@ theorem above_left {a op c} (ha : rootOK a = true) (hop : op ∈ infixToks) (hc 
     · simp only [ho, ↓reduceIte, Bool.false_eq_true] at h1 ⊢; omega
     · have := q3 ho; simp only [ho, ↓reduceIte, Bool.false_eq_true] at h1 ⊢; omega
   cases a with
+  | ifE _ _ _ => rfl
+  | fnE _ _ => rfl
   | int _ => rfl
   | bool _ => rfl
   | ident _ => rfl
@@ -528,6 +529,8 @@ theorem stopsTop_right {b p rest} (ha : aboveCtx M p b = true) (hs : stops p res
     stopsTop b rest := by
   intro q hq
   cases b with
+  | ifE _ _ _ => simp [rlevel] at hq
+  | fnE _ _ => simp [rlevel] at hq
   | int _ => simp [rlevel] at hq
   | bool _ => simp [rlevel] at hq
   | ident _ => simp [rlevel] at hq
@@ -830,6 +833,8 @@ theorem not_cont_assign {p} (hp : ¬ (p ≤ assignRank)) : continues p "Assign" 
 /-- an assignment target never needs parentheses -/
 theorem needL_assign {a} (hw : wfT M a = true) (hok : okBAT M true a = true) : needL M "Assign" a = false := by
   cases a with
+  | ifE _ _ _ => rfl
+  | fnE _ _ => rfl
   | int _ => rfl
   | bool _ => rfl
   | ident _ => rfl
@@ -844,6 +849,8 @@ theorem needL_assign {a} (hw : wfT M a = true) (hok : okBAT M true a = true) : n
 
 mutual
 theorem U_render : ∀ (x : PExpr), wfT M x = true → U x (renderT M x) (fun ca => okBAT M ca x)
+  | .ifE _ _ _, h => by simp [wfT] at h
+  | .fnE _ _, h => by simp [wfT] at h
   | .int n, _ => U_weaken (U_int n) (fun ca h => by simp [okBAT] at h)
   | .bool b, _ => U_weaken (U_bool b) (fun ca h => by simp [okBAT] at h)
   | .ident s, _ => U_weaken (U_ident s) (fun ca h => by simpa [okBAT] using h)
@@ -888,6 +895,8 @@ theorem stopsTop_of_assign {x rest} (hx : rootOK x = true) (hs : stops assignRan
   intro p hp
   refine stops_mono hs ?_
   cases x with
+  | ifE _ _ _ => simp [rlevel] at hp
+  | fnE _ _ => simp [rlevel] at hp
   | int _ => simp [rlevel] at hp
   | bool _ => simp [rlevel] at hp
   | ident _ => simp [rlevel] at hp
@@ -934,6 +943,8 @@ theorem above_agree {x} (hx : rootOK x = true) (c : Nat) : aboveCtx docTbl c x =
 
 theorem rlevel_agree {x} (hx : rootOK x = true) : rlevel docTbl x = rlevel M x := by
   cases x with
+  | ifE _ _ _ => rfl
+  | fnE _ _ => rfl
   | int _ => rfl
   | bool _ => rfl
   | ident _ => rfl
@@ -961,6 +972,8 @@ theorem rootOK_of_wf {T x} (h : wfT T x = true) : rootOK x = true := by
 mutual
 theorem agree : ∀ (x : PExpr), wfT docTbl x = true →
     wfT M x = true ∧ renderT docTbl x = renderT M x ∧ ∀ ca, okBAT docTbl ca x = okBAT M ca x
+  | .ifE _ _ _, h => by simp [wfT] at h
+  | .fnE _ _, h => by simp [wfT] at h
   | .int _, _ => ⟨rfl, rfl, fun _ => rfl⟩
   | .bool _, _ => ⟨rfl, rfl, fun _ => rfl⟩
   | .ident _, _ => ⟨rfl, rfl, fun _ => rfl⟩
@@ -1039,6 +1052,8 @@ theorem renderFullArgs_eq (T : Tbl) (es : List PExpr) :
 
 mutual
 theorem U_renderFull : ∀ (x : PExpr), wfT M x = true → U x (renderFullT M x) (fun _ => false)
+  | .ifE _ _ _, h => by simp [wfT] at h
+  | .fnE _ _, h => by simp [wfT] at h
   | .int n, _ => U_int n
   | .bool b, _ => U_bool b
   | .ident s, _ => U_weaken (U_ident s) (fun ca h => by simp at h)
@@ -1082,6 +1097,8 @@ end
 
 mutual
 theorem agreeFull : ∀ (x : PExpr), wfT docTbl x = true → renderFullT docTbl x = renderFullT M x
+  | .ifE _ _ _, h => by simp [wfT] at h
+  | .fnE _ _, h => by simp [wfT] at h
   | .int _, _ => rfl
   | .bool _, _ => rfl
   | .ident _, _ => rfl
@@ -1210,6 +1227,8 @@ theorem startOK_left {b : Bool} {ra : List Tok} {op : String} {tl : List Tok} (h
 
 theorem startOK_render (T : Tbl) : ∀ (x : PExpr), wfT T x = true → ∀ rest, peekIs "Colon" rest = false →
     startOK (renderT T x ++ rest) = true
+  | .ifE _ _ _, h, _, _ => by simp [wfT] at h
+  | .fnE _ _, h, _, _ => by simp [wfT] at h
   | .int _, _, rest, _ => by simp [renderT, startOK]; decide
   | .bool b, _, rest, _ => by cases b <;> simp [renderT, startOK] <;> decide
   | .ident _, _, rest, h => by simp only [renderT, List.cons_append, List.nil_append, startOK, ttype_ident, h]; decide
